@@ -2,7 +2,7 @@
     repaired model agrees with the reference specification. *)
 From BX Require Import Base.Prelude Model.JsonAcct Model.Merkle Model.StateLedger Model.LedgerSpec
   Proofs.LedgerLemmas Proofs.RootProofs Proofs.RefineBase Proofs.RefineBlock Proofs.RefineUndo Proofs.RefineSim
-  Proofs.RefineStep Proofs.RefineFlush Proofs.RefineRollback.
+  Proofs.RefineStep Proofs.RefineFlush Proofs.RefineRollback Proofs.RefineDump Proofs.RefineQuery.
 Local Open Scope N_scope.
 
 Section Main.
@@ -11,7 +11,7 @@ Variable e : env.
 (** operations covered by the proof (the others are tied by correspondence only) *)
 Definition proved_op (o : op) : bool :=
   match o with
-  | Query _ _ | Dump _ _ | SetCode _ _ | GetCommitted _ _ => false
+  | SetCode _ _ | GetCommitted _ _ => false
   | _ => true
   end.
 
@@ -46,7 +46,7 @@ Proof.
 Qed.
 
 Lemma step_db m o : proved_op o = true ->
-  match o with Flush | Commit _ | Rollback _ => True | _ => s_db (fst (step e cfg_fixed m o)) = s_db m end.
+  match o with Flush | Commit _ | Rollback _ | Dump _ _ | Query _ _ => True | _ => s_db (fst (step e cfg_fixed m o)) = s_db m end.
 Proof.
   intro Hp. destruct o; try exact Logic.I; try discriminate; cbn [step].
   - unfold do_getbal. pose proof (get_obj_db m a). destruct (get_obj m a). exact H.
@@ -69,7 +69,7 @@ Qed.
 
 Lemma spec_frame s o x : proved_op o = true ->
   match o with
-  | Flush | Commit _ | Rollback _ => True
+  | Flush | Commit _ | Rollback _ | Dump _ _ | Query _ _ => True
   | _ => let s' := fst (spec_step e s o x) in
          sp_hist s' = sp_hist s /\ sp_min s' = sp_min s /\ sp_max s' = sp_max s /\ sp_fl s' = sp_fl s /\ sp_prev s' = sp_prev s
   end.
@@ -85,11 +85,25 @@ Definition stepC_ok (m : st) (s : spec) (o : op) : Prop :=
   SimC e m' s' /\ sexp_match false ex x = true.
 
 Lemma stepC_dispatch m s o :
-  SimC e m s -> wf_thm_b s o = true -> proved_op o = true -> o <> Flush -> stepC_ok m s o.
+  SimC e m s -> smap_wf (sp_cur s) -> wf_thm_b s o = true -> proved_op o = true -> o <> Flush -> stepC_ok m s o.
 Proof.
-  intros [S [K Hnd]] Hwf Hp Hnf. unfold stepC_ok.
+  intros [S [K Hnd]] Wc Hwf Hp Hnf. unfold stepC_ok.
+  destruct (match o with Query _ _ => true | _ => false end) eqn:Equ.
+  { destruct o; try discriminate. pose proof (step_query e m s a p S Wc) as SO.
+    destruct (step e cfg_fixed m (Query a p)) as [m' x] eqn:Est.
+    destruct (spec_step e s (Query a p) x) as [s' ex] eqn:Esp.
+    destruct SO as [S' [Hm Hdb]]. split; [| exact Hm].
+    cbn [spec_step] in Esp. inversion Esp; subst s' ex.
+    split; [exact S' | split; [apply (chain_frame m m' s s); try reflexivity; assumption | exact Hnd]]. }
   destruct (match o with Rollback _ => true | _ => false end) eqn:Erb.
   { destruct o; try discriminate. apply (step_rollback e m s h); [split; [exact S | split; assumption] | exact Hwf]. }
+  destruct (match o with Dump _ _ => true | _ => false end) eqn:Edu.
+  { destruct o; try discriminate. pose proof (step_dump e m s accts keys S) as SO.
+    destruct (step e cfg_fixed m (Dump accts keys)) as [m' x] eqn:Est.
+    destruct (spec_step e s (Dump accts keys) x) as [s' ex] eqn:Esp.
+    destruct SO as [S' [Hm Hdb]]. split; [| exact Hm].
+    cbn [spec_step] in Esp. inversion Esp; subst s' ex.
+    split; [exact S' | split; [apply (chain_frame m m' s (sp_clear s)); try reflexivity; assumption | exact Hnd]]. }
   destruct (match o with Commit _ => true | _ => false end) eqn:Ecm.
   { destruct o; try discriminate. pose proof (step_commit_nopend e m s h S) as SO. unfold step_ok in SO.
     cbn [step spec_step] in *. unfold do_commit in *.
@@ -127,9 +141,10 @@ Proof.
 Qed.
 
 (** the relation between two steps: either the simulation proper, or "just flushed" *)
+Definition SimW (m : st) (s : spec) : Prop := SimC e m s /\ spec_wf s.
 Definition SimT (m : st) (s : spec) : Prop :=
-  SimC e m s \/
-  exists m0 s0, SimC e m0 s0 /\ m = fst (do_flush e m0) /\ s = fst (spec_step e s0 Flush (snd (do_flush e m0))).
+  SimW m s \/
+  exists m0 s0, SimW m0 s0 /\ m = fst (do_flush e m0) /\ s = fst (spec_step e s0 Flush (snd (do_flush e m0))).
 
 Lemma spec_flush_pend s x : sp_pend (fst (spec_step e s Flush x)) = true /\
   sp_max (fst (spec_step e s Flush x)) = sp_max s.
@@ -154,11 +169,13 @@ Proof.
       cbn [step] in Est. split; [reflexivity|].
       rewrite Hxs. apply IH; [| exact Hpt].
       right. exists m, s. split; [exact S|]. rewrite Est. split; reflexivity.
-    + pose proof (stepC_dispatch m s o S Hwf Hpo Hnf) as SO. unfold stepC_ok in SO. rewrite Est in SO.
+    + destruct S as [S W].
+      pose proof (stepC_dispatch m s o S (sw_cur s W) Hwf Hpo Hnf) as SO. unfold stepC_ok in SO. rewrite Est in SO.
+      pose proof (spec_step_wf e s o x W) as W1.
       destruct (spec_step e s o x) as [s1 ex] eqn:Esp. destruct SO as [S1 Hm1].
-      cbn [fst snd]. split; [exact Hm1|]. rewrite Hxs. apply IH; [left; exact S1 | exact Hpt].
+      cbn [fst snd] in *. split; [exact Hm1|]. rewrite Hxs. apply IH; [left; split; assumption | exact Hpt].
   - (* after a flush only the commit of the next height is inside the domain *)
-    destruct S0 as [S0 [K0 Hnd0]].
+    destruct S0 as [[S0 [K0 Hnd0]] W0].
     destruct (spec_flush_pend s0 (snd (do_flush e m0))) as [Hpend Hmax]. rewrite <- Hs in Hpend, Hmax.
     unfold wf_thm_b, wf_op_b in Hwf. rewrite Hpend in Hwf.
     destruct o; try (rewrite ?andb_false_r in Hwf; cbn [andb read_only] in Hwf; discriminate).
@@ -175,13 +192,15 @@ Proof.
       with (spec_flush_commit e s0 (root_of e m0) (isort n_leb (map fst (dirty_objs m0))) h).
     split.
     + cbn [spec_step fst sp_pend snd]. reflexivity.
-    + rewrite Hxs. apply IH; [| exact Hpt]. left. rewrite Hm1. split; [exact S2 | split; [exact K2|]].
-      unfold spec_flush_commit. cbn [spec_step fst sp_pend sp_hist]. apply aset_keys_NoDup. exact Hnd0.
+    + rewrite Hxs. apply IH; [| exact Hpt]. left. rewrite Hm1. split.
+      * split; [exact S2 | split; [exact K2|]].
+        unfold spec_flush_commit. cbn [spec_step fst sp_pend sp_hist]. apply aset_keys_NoDup. exact Hnd0.
+      * unfold spec_flush_commit. apply spec_step_wf. apply spec_step_wf. exact W0.
 Qed.
 
 (** from the initial (empty) ledger *)
 Corollary refine_from_empty : forall ops,
   forallb proved_op ops = true ->
   spec_agree_P wf_thm_b false e spec0 ops (snd (run e cfg_fixed st0 ops)).
-Proof. intros ops Hp. apply refine_run; [left; apply SimC0 | exact Hp]. Qed.
+Proof. intros ops Hp. apply refine_run; [left; split; [apply SimC0 | apply spec_wf0] | exact Hp]. Qed.
 End Main.
